@@ -2,7 +2,8 @@
 //
 // The interpreter implements the Cb built-in malloc(size) by one call to std::malloc in
 // call_impl.cpp.  A generated program starts with `void* cal = malloc(12345); free(cal);`.  The shim
-// remembers the return address of every malloc(12345) call (= the built-in's call site) and from
+// remembers the return address of every malloc(12345) call made from the main executable itself
+// (= the built-in's call site; operator new lives in libstdc++ and is never taken) and from
 // then on reports
 //     C19M M <addr> <size>     malloc from a calibrated site (a Cb-level allocation)
 //     C19M F <addr>            free of a block obtained that way
@@ -10,9 +11,13 @@
 //                              out again by the allocator since (double free); the call is dropped
 // on stderr.  Everything else (the interpreter's own allocations) passes through silently.
 // Built with: g++ -shared -fPIC (common.build_leaf(..., extra_flags="-shared -fPIC")).
+#ifndef _GNU_SOURCE
+#define _GNU_SOURCE
+#endif
 #include <cstddef>
 #include <cstdint>
 #include <cstring>
+#include <dlfcn.h>
 #include <unistd.h>
 
 extern "C" {
@@ -33,6 +38,12 @@ int nlive = 0;
 void *dead[CAP];
 int ndead = 0;
 
+bool in_main_executable(void *ra) {     // only consulted for the rare MAGIC-sized requests
+    Dl_info info;
+    if (!dladdr(ra, &info) || !info.dli_fname) return false;
+    size_t n = strlen(info.dli_fname);
+    return n >= 5 && strcmp(info.dli_fname + n - 5, "/main") == 0;
+}
 bool is_site(void *ra) {
     for (int i = 0; i < nsites; i++)
         if (sites[i] == ra) return true;
@@ -78,7 +89,7 @@ extern "C" void *malloc(size_t n) {
     void *p = __libc_malloc(n);
     void *ra = __builtin_return_address(0);
     handed_out(p);
-    if (n == MAGIC && !is_site(ra) && nsites < MAXSITE) sites[nsites++] = ra;
+    if (n == MAGIC && !is_site(ra) && nsites < MAXSITE && in_main_executable(ra)) sites[nsites++] = ra;
     if (nsites && p && is_site(ra) && nlive < CAP) {
         live[nlive++] = p;
         emit('M', p, n, true);
